@@ -212,8 +212,13 @@ func tryReplay(p *Program, repo string, r *OblResult) (bool, map[string]any) {
 	}
 	src, why := replaySource(p, r)
 	if src == "" {
-		how["note"] = "counterexample not replayed: " + why
-		return false, how
+		// R2: functions whose non-scalar inputs are byte slices (the decoders)
+		src2, why2 := replayBytesSource(p, r)
+		if src2 == "" {
+			how["note"] = "counterexample not replayed: " + why + "; " + why2
+			return false, how
+		}
+		src = src2
 	}
 	ok, out := runReplay(repo, src)
 	how["test_source"] = src
@@ -253,4 +258,166 @@ func cmdReplay(args []string) int {
 	}
 	fmt.Println("not reproduced on the current /repo")
 	return 0
+}
+
+
+var ghostCallRe = regexp.MustCompile(`\b(old|isNew|typeIs|ifaceIs|sameSlice|unchanged|sends|held|visited|has|rangeIdx)\(`)
+
+// replayBytesSource (R2): the function takes scalars and []byte slices, the receiver (if any) is a pointer to a struct
+// that the function fills in. A second solver run on the refuted query asks for a counterexample with every byte slice
+// at most 64 bytes long and for the bytes themselves; the real function is then called on those bytes with a zero
+// receiver. A safety obligation is reproduced when the real code panics; a postcondition without ghost vocabulary is
+// evaluated on the result.
+func replayBytesSource(p *Program, r *OblResult) (string, string) {
+	c := p.Contracts[r.Func]
+	if c == nil || c.Fn == nil || r.FailSMT == "" {
+		return "", "no query kept for a minimising run"
+	}
+	if r.Kind != "safe" && r.Kind != "post" {
+		return "", "byte-slice replay covers safety obligations and postconditions only"
+	}
+	sig := c.Fn.Signature
+	var recvDecl, callPrefix string
+	if rv := sig.Recv(); rv != nil {
+		pt, ok := rv.Type().(*types.Pointer)
+		if !ok {
+			return "", "value receiver"
+		}
+		if _, ok := pt.Elem().Underlying().(*types.Struct); !ok {
+			return "", "receiver is not a struct"
+		}
+		name := rv.Name()
+		if name == "" || name == "_" {
+			name = "recv"
+		}
+		recvDecl = fmt.Sprintf("\t%s := &%s{}\n", name, types.TypeString(pt.Elem(), func(*types.Package) string { return "" }))
+		callPrefix = name + "."
+	}
+	var extra strings.Builder
+	var get []string
+	type bs struct{ name string }
+	var slices []bs
+	hasBytes := strings.Contains(r.FailSMT, "(declare-fun E_uint8@pre ")
+	for i := 0; i < sig.Params().Len(); i++ {
+		pv := sig.Params().At(i)
+		if sl, ok := pv.Type().Underlying().(*types.Slice); ok {
+			if b, isB := sl.Elem().Underlying().(*types.Basic); !isB || b.Kind() != types.Uint8 {
+				return "", "parameter " + pv.Name() + " is a slice of non-bytes"
+			}
+			n := smtName("in_" + pv.Name())
+			if !strings.Contains(r.FailSMT, "(declare-fun "+n+"_len ") {
+				slices = append(slices, bs{pv.Name()})
+				continue
+			}
+			fmt.Fprintf(&extra, "(assert (bvule %s_len (_ bv64 64)))\n", n)
+			get = append(get, n+"_len")
+			if hasBytes && strings.Contains(r.FailSMT, "(declare-fun "+n+"_base ") && strings.Contains(r.FailSMT, "(declare-fun "+n+"_off ") {
+				for k := 0; k < 64; k++ {
+					fmt.Fprintf(&extra, "(define-fun rb_%s_%d () (_ BitVec 8) (select (select E_uint8@pre %s_base) (bvadd %s_off (_ bv%d 64))))\n", n, k, n, n, k)
+					get = append(get, fmt.Sprintf("rb_%s_%d", n, k))
+				}
+			}
+			slices = append(slices, bs{pv.Name()})
+			continue
+		}
+		if _, ok := goLiteral(pv.Type(), "#x0"); !ok {
+			if _, ok2 := goLiteral(pv.Type(), "false"); !ok2 {
+				return "", "parameter " + pv.Name() + " is neither a scalar nor a byte slice"
+			}
+		}
+		if strings.Contains(r.FailSMT, "(declare-fun "+smtName("in_"+pv.Name())+" ") {
+			get = append(get, smtName("in_"+pv.Name()))
+		}
+	}
+	if len(slices) == 0 {
+		return "", "no byte-slice parameter"
+	}
+	res := solve("replay-min", r.FailSMT+extra.String(), get, 30, false)
+	if res.Status != "sat" {
+		return "", "no counterexample with byte slices of at most 64 bytes (" + res.Status + ")"
+	}
+	var sb strings.Builder
+	sb.WriteString("//go:build verif\n\npackage sctp\n\nimport (\n\t\"math\"\n\t\"testing\"\n)\n\nvar _ = math.Float64frombits\n\n")
+	sb.WriteString("func TestVerifReplay(t *testing.T) {\n")
+	if r.Kind == "safe" {
+		sb.WriteString("\tdefer func() {\n\t\tif e := recover(); e != nil {\n\t\t\tt.Fatalf(\"REPRODUCED: the real code panics on this input: %v\", e)\n\t\t}\n\t}()\n")
+	}
+	var args []string
+	for i := 0; i < sig.Params().Len(); i++ {
+		pv := sig.Params().At(i)
+		if _, ok := pv.Type().Underlying().(*types.Slice); ok {
+			n := smtName("in_" + pv.Name())
+			ln := 0
+			if v, ok := res.Model[n+"_len"]; ok {
+				if b, ok := modelBig(v); ok {
+					ln = int(b.Int64())
+				}
+			}
+			var bytes []string
+			for k := 0; k < ln && k < 64; k++ {
+				bv := 0
+				if v, ok := res.Model[fmt.Sprintf("rb_%s_%d", n, k)]; ok {
+					if b, ok := modelBig(v); ok {
+						bv = int(b.Int64())
+					}
+				}
+				bytes = append(bytes, fmt.Sprintf("0x%02x", bv))
+			}
+			fmt.Fprintf(&sb, "\t%s := []byte{%s}\n", pv.Name(), strings.Join(bytes, ", "))
+			args = append(args, pv.Name())
+			continue
+		}
+		mv, ok := res.Model[smtName("in_"+pv.Name())]
+		if !ok {
+			mv = "#x0"
+			if b, isB := pv.Type().Underlying().(*types.Basic); isB && b.Info()&types.IsBoolean != 0 {
+				mv = "false"
+			}
+			if isFloat(pv.Type()) {
+				mv = "(_ +zero 11 53)"
+			}
+		}
+		lit, ok := goLiteral(pv.Type(), mv)
+		if !ok {
+			return "", "parameter " + pv.Name() + " has no literal form"
+		}
+		fmt.Fprintf(&sb, "\t%s := %s\n", pv.Name(), lit)
+		args = append(args, pv.Name())
+	}
+	sb.WriteString(recvDecl)
+	rs := sig.Results()
+	var lhs []string
+	for i := 0; i < rs.Len(); i++ {
+		n := "result"
+		if rs.Len() > 1 {
+			n = fmt.Sprintf("result%d", i)
+		}
+		lhs = append(lhs, n)
+	}
+	call := callPrefix + c.Fn.Name() + "(" + strings.Join(args, ", ") + ")"
+	if len(lhs) > 0 {
+		fmt.Fprintf(&sb, "\t%s := %s\n", strings.Join(lhs, ", "), call)
+		for _, n := range lhs {
+			fmt.Fprintf(&sb, "\t_ = %s\n", n)
+		}
+	} else {
+		fmt.Fprintf(&sb, "\t%s\n", call)
+	}
+	for _, a := range args {
+		fmt.Fprintf(&sb, "\t_ = %s\n", a)
+	}
+	if r.Kind == "post" {
+		var cl *Clause
+		for _, e := range c.Ensures {
+			if c.Key+":post#"+e.Label == r.Name {
+				cl = e
+			}
+		}
+		if cl == nil || len(cl.Bound) > 0 || ghostCallRe.MatchString(cl.GoText) {
+			return "", "postcondition uses ghost vocabulary or quantifiers: not executable"
+		}
+		fmt.Fprintf(&sb, "\tif !(%s) {\n\t\tt.Fatalf(\"REPRODUCED: %s violated on the real code\")\n\t}\n", cl.GoText, strings.ReplaceAll(r.Name, `"`, `'`))
+	}
+	sb.WriteString("}\n")
+	return sb.String(), ""
 }
